@@ -29,6 +29,8 @@ def main():
             print("   OUT-OF-REACH:", ex)
             if verbose: traceback.print_exc()
             continue
+        if getattr(fr, "partial_error", None): print("   PARTIAL (undecided):", fr.partial_error)
+        if getattr(fr, "unused_anchors", None): print("   UNUSED ANCHORS:", fr.unused_anchors)
         print(f"   vcgen {time.time()-t0:.2f}s, {len(fr.order)} obligations, dropped {len(fr.dropped)}")
         params = {n: (v, fr.init_state.heap) for n, v in fr.init_state.env.items() if not n.startswith("$")}
         for name in fr.order:
